@@ -60,6 +60,11 @@ func buildSim(race bool) (string, error) {
 	if race {
 		bin = filepath.Join(workDir(), "race.test")
 		args = []string{"test", "-c", "-vet=off", "-race", "-o", bin}
+		ov, _, err := overlay.GenerateInjectOnly(repoDir, workDir(), filepath.Join(verifDir, "inject"))
+		if err != nil {
+			return "", fmt.Errorf("overlay: %w", err)
+		}
+		args = append(args, "-overlay", ov)
 	} else {
 		ov, stt, err := overlay.Generate(repoDir, workDir(), filepath.Join(verifDir, "inject"), true)
 		if err != nil {
